@@ -277,7 +277,19 @@ fn write_slot_into(root: &syn::Path, field: &FieldModel) -> TokenStream {
     }
 }
 
-fn compute_num_slots(root: &syn::Path, fields: &[&FieldModel], by_ref: bool) -> TokenStream {
+fn compute_num_slots(
+    root: &syn::Path,
+    fields: &[&FieldModel],
+    by_ref: bool,
+    labelled: bool,
+) -> TokenStream {
+    if !labelled {
+        // Unlabelled fields are always written (an absent value cannot be omitted from a tuple).
+        let num_fields = fields.len();
+        return quote! {
+            let num_slots: usize = #num_fields;
+        };
+    }
     let increments = fields.iter().map(|field| {
         let field_index = &field.selector;
         let fld = if by_ref {
@@ -348,7 +360,12 @@ impl<'a> ToTokens for WriteWithFn<'a> {
                 }
             }
             BodyFields::StdBody(fields) => {
-                let num_slots = compute_num_slots(root, fields, false);
+                let num_slots = compute_num_slots(
+                    root,
+                    fields,
+                    false,
+                    fields_model.body_kind == CompoundTypeKind::Labelled,
+                );
 
                 let (body_kind, statements) =
                     if fields_model.body_kind == CompoundTypeKind::Labelled {
@@ -470,7 +487,12 @@ impl<'a> ToTokens for WriteIntoFn<'a> {
                 }
             }
             BodyFields::StdBody(fields) => {
-                let num_slots = compute_num_slots(root, fields, true);
+                let num_slots = compute_num_slots(
+                    root,
+                    fields,
+                    true,
+                    fields_model.body_kind == CompoundTypeKind::Labelled,
+                );
 
                 let (body_kind, statements) =
                     if fields_model.body_kind == CompoundTypeKind::Labelled {
